@@ -235,3 +235,12 @@ Proof.
     rewrite runM_app. now rewrite (proj1 (Hrs s1)).
   - intros s1 _. apply Hrs.
 Qed.
+
+(** RawLRU's step function in the shape of [runM] (it has no panic site) *)
+Definition lstepM (s : lru) (o : lop) : res (lru * list Z) :=
+  Ok (fst (fst (lstep s o)), snd (fst (lstep s o))).
+
+Lemma lstepM_read_only s o : l_read_only o = true -> exists out, lstepM s o = Ok (s, out).
+Proof.
+  intros H. destruct (lstep_read_only s o H) as [E _]. unfold lstepM. rewrite E. eauto.
+Qed.
